@@ -39,7 +39,7 @@ def accounting(case, asg, infinity=10000):
 
 def gen_run(rng):
     palettes = ("ties", "distinct", "float", "neg", "hard")
-    case = gen.gen_case(rng, min_vars=1, max_vars=6, max_dom=3, palettes=palettes, max_space=800)
+    case = gen.gen_case(rng, min_vars=1, max_vars=6, max_dom=3, palettes=palettes, max_space=800, initial=rng.random() < 0.5)
     if case["palette"] == "hard":
         case["objective"] = "min"
         if rng.random() < 0.5:
